@@ -23,6 +23,9 @@ struct Cfg {
     dynamic: bool,
     /// doublings performed after the U-turn criterion fired (non-default tree option)
     extra_doublings: u64,
+    /// forced doublings (non-default tree option) and the energy-error limit
+    mindepth: u64,
+    max_energy_error: f64,
     name: String,
 }
 
@@ -33,6 +36,12 @@ fn tweaks(c: &Cfg) -> Tweaks {
     t.maxdepth = Some(4);
     if c.extra_doublings > 0 {
         t.extra_doublings = Some(c.extra_doublings);
+    }
+    if c.mindepth > 0 {
+        t.mindepth = Some(c.mindepth);
+    }
+    if c.max_energy_error != 1000.0 {
+        t.max_energy_error = Some(c.max_energy_error);
     }
     if c.preset.is_nuts() {
         t.kinetic = Some(c.kinetic);
@@ -216,7 +225,7 @@ fn judge(c: &Cfg, faults: &[(u64, FaultKind)], r: &Run, p: &mut Partial, tag: &s
         // a lowered log-density is a fault of the trajectory exactly when the energy error it
         // causes relative to the trajectory's start exceeds max_energy_error (1000 in every
         // configuration here; 100 of slack for the energy error of the integration itself)
-        let traj_faults: Vec<(u64, FaultKind)> = traj_faults.into_iter().filter(|(_, f)| drop_of(*f).map(|d| d - start_drop > 1100.0).unwrap_or(true)).collect();
+        let traj_faults: Vec<(u64, FaultKind)> = traj_faults.into_iter().filter(|(_, f)| drop_of(*f).map(|d| d - start_drop > c.max_energy_error + 100.0).unwrap_or(true)).collect();
         if !traj_faults.is_empty() {
             let must_diverge = c.preset.is_nuts() || !c.dynamic;
             if must_diverge && !(dr.diverging && stat_div) {
@@ -340,16 +349,22 @@ pub fn run_check(tier: Tier, _replay: Option<String>) -> i32 {
     for &nt in &tunes {
         for preset in [Preset::DiagNuts, Preset::LowRankNuts] {
             for kin in [KineticEnergyKind::Euclidean, KineticEnergyKind::ExactNormal] {
-                cfgs.push(Cfg { preset, kinetic: kin, num_tune: nt, dynamic: false, extra_doublings: 0, name: format!("{preset:?}-{kin:?}-tune{nt}") });
+                cfgs.push(Cfg { preset, kinetic: kin, num_tune: nt, dynamic: false, extra_doublings: 0, mindepth: 0, max_energy_error: 1000.0, name: format!("{preset:?}-{kin:?}-tune{nt}") });
+                // non-default tree options: forced doublings / a requested integration time together
+                // with a tight energy-error limit (a drop of 600 is then a fault by itself)
+                if kin == KineticEnergyKind::Euclidean && nt == 10 && preset == Preset::DiagNuts {
+                    cfgs.push(Cfg { preset, kinetic: kin, num_tune: nt, dynamic: false, extra_doublings: 0, mindepth: 2, max_energy_error: 50.0, name: format!("{preset:?}-{kin:?}-tune{nt}-mindepth2-mee50") });
+                    cfgs.push(Cfg { preset, kinetic: kin, num_tune: nt, dynamic: false, extra_doublings: 1, mindepth: 0, max_energy_error: 50.0, name: format!("{preset:?}-{kin:?}-tune{nt}-extra1-mee50") });
+                }
                 // non-default tree option: doublings that continue after the U-turn criterion fired
                 if kin == KineticEnergyKind::Euclidean && nt == 10 {
-                    cfgs.push(Cfg { preset, kinetic: kin, num_tune: nt, dynamic: false, extra_doublings: 2, name: format!("{preset:?}-{kin:?}-tune{nt}-extra2") });
+                    cfgs.push(Cfg { preset, kinetic: kin, num_tune: nt, dynamic: false, extra_doublings: 2, mindepth: 0, max_energy_error: 1000.0, name: format!("{preset:?}-{kin:?}-tune{nt}-extra2") });
                 }
             }
         }
-        cfgs.push(Cfg { preset: Preset::FlowNuts, kinetic: KineticEnergyKind::Euclidean, num_tune: nt, dynamic: false, extra_doublings: 0, name: format!("FlowNuts-tune{nt}") });
+        cfgs.push(Cfg { preset: Preset::FlowNuts, kinetic: KineticEnergyKind::Euclidean, num_tune: nt, dynamic: false, extra_doublings: 0, mindepth: 0, max_energy_error: 1000.0, name: format!("FlowNuts-tune{nt}") });
         for dynamic in [false, true] {
-            cfgs.push(Cfg { preset: Preset::DiagMclmc, kinetic: KineticEnergyKind::Euclidean, num_tune: nt, dynamic, extra_doublings: 0, name: format!("DiagMclmc-dynamic{dynamic}-tune{nt}") });
+            cfgs.push(Cfg { preset: Preset::DiagMclmc, kinetic: KineticEnergyKind::Euclidean, num_tune: nt, dynamic, extra_doublings: 0, mindepth: 0, max_energy_error: 1000.0, name: format!("DiagMclmc-dynamic{dynamic}-tune{nt}") });
         }
     }
     // job list: (config index, faults)
@@ -374,6 +389,9 @@ pub fn run_check(tier: Tier, _replay: Option<String>) -> i32 {
             if c.preset.is_nuts() && k + 1 < e {
                 jobs.push((ci, vec![(k, FaultKind::Drop600), (k + 1, FaultKind::Drop1500)], format!("k{k}-drop_600+k{}-drop_1500", k + 1)));
                 jobs.push((ci, vec![(k, FaultKind::Drop1500)], format!("k{k}-drop_1500")));
+            }
+            if c.max_energy_error < 500.0 {
+                jobs.push((ci, vec![(k, FaultKind::Drop600)], format!("k{k}-drop_600")));
             }
             for j in 1..=window {
                 if k + j >= e {
